@@ -757,8 +757,12 @@ End Brp.
 (* requested sizes are what the theorems bound; the Go allocator, append's growth policy, the
    string copy of every CID, the hashers and the CBOR decoder sit between a request and the bytes
    actually allocated, hence the factor 4, the slack and the per-input-byte constant. *)
-Definition alloc_slack : N := 1048576.
+(* Only the limits an entry point actually reads under enter its budget (theories/RunTotal.v lists them per
+   entry): a buffer whose read fails is requested once (factor 2 leaves room for one copy), the go-cid and
+   index-chunk constants go through append / string copies (factor 4). *)
+Definition alloc_slack : N := 524288.
 Definition alloc_per_byte : N := 1024.
-Definition alloc_budget (maxh maxs : N) (uses_cfr uses_idx : bool) (inlen : N) : N :=
-  4 * (maxh + maxs + (if uses_cfr then max_digest_alloc else 0) + (if uses_idx then idx_chunk else 0))
+Definition alloc_budget (hlim slim : N) (uses_cfr uses_idx : bool) (inlen : N) : N :=
+  2 * (hlim + slim)
+  + 4 * ((if uses_cfr then max_digest_alloc else 0) + (if uses_idx then idx_chunk else 0))
   + alloc_slack + alloc_per_byte * inlen.
